@@ -220,7 +220,8 @@ fn configurations(quick: bool) -> Vec<Cfg> {
     // 3 requests, full schedule space (5·10^5 schedules each at max_batch_size 3, 10^7 at 2)
     let pick = vec![vec![vec![0], vec![0], vec![1]], vec![vec![0], vec![1], vec![0, 1]]];
     if quick {
-        product(&mut out, Part::Full, &pick, &[3], &[(CacheK::No, false), (CacheK::Map, false)], &[Mode::Ok], false);
+        product(&mut out, Part::Full, &pick[..1], &[3], &[(CacheK::No, false)], &[Mode::Ok], false);
+        product(&mut out, Part::Full, &pick[1..], &[3], &[(CacheK::Map, false)], &[Mode::Ok], false);
     } else {
         product(&mut out, Part::Full, &three_small, &[3], &[(CacheK::No, false), (CacheK::Map, false), (CacheK::Lru2, true)], &[Mode::Ok], false);
         product(&mut out, Part::Full, &pick, &[2], &[(CacheK::No, false)], &[Mode::Ok], false);
@@ -412,6 +413,8 @@ fn exec_with<C: CacheFactory>(cfg: &Cfg, factory: C, ch: &mut Chooser, preempt: 
         root_waker: None,
     }));
     let rc = RunCfg { policy: if cfg.part == Part::Full { Policy::Full } else { Policy::Eager }, gate_class: Class::Exhaustive, preempt_class: preempt, max_steps: 5_000 };
+    // moves are also logged outside the run so that a panicking execution keeps its schedule
+    let moves_log: Mutex<Vec<String>> = Mutex::new(Vec::new());
     let r = catch_quiet(|| {
         let dl = Arc::new(DataLoader::with_cache(L { h: h.clone(), sh: sh.clone(), mode: cfg.mode }, Sp(h.clone()), GatedTimer(h.clone()), factory).max_batch_size(cfg.max_batch));
         let (h2, sh2) = (h.clone(), sh.clone());
@@ -433,13 +436,13 @@ fn exec_with<C: CacheFactory>(cfg: &Cfg, factory: C, ch: &mut Chooser, preempt: 
             })
             .await
         };
-        let res = sched::run(&h, ch, &rc, root, &mut |_| {});
+        let res = sched::run(&h, ch, &rc, root, &mut |mv| moves_log.lock().unwrap().push(mv.to_string()));
         (res.end, res.schedule, res.steps, res.pending_gates, res.unfinished_tasks)
     });
     let g = sh.lock().unwrap();
     match r {
         Ok((end, schedule, steps, pending_gates, unfinished)) => Exec { end, panic: None, schedule, steps, pending_gates, unfinished, batches: g.batches.clone(), loads: g.loads.clone() },
-        Err(p) => Exec { end: End::Horizon, panic: Some(p), schedule: Vec::new(), steps: 0, pending_gates: Vec::new(), unfinished: Vec::new(), batches: g.batches.clone(), loads: g.loads.clone() },
+        Err(p) => Exec { end: End::Horizon, panic: Some(p), schedule: moves_log.lock().unwrap().clone(), steps: 0, pending_gates: Vec::new(), unfinished: Vec::new(), batches: g.batches.clone(), loads: g.loads.clone() },
     }
 }
 
@@ -599,7 +602,7 @@ pub fn run(cx: &Cx) {
         "execution = (configuration, schedule). Configuration = 2–3 requests (non-empty key sets ⊆ {0,1,2}, at least two sharing a key) × max_batch_size {1,2,3} \
          × cache {NoCache, HashMapCache, HashMapCache+feed(2), LruCache(2), LruCache(2)+feed(2)} × loader {ok, partial (no key 1), every batch fails, first batch fails} × cancellation {none, drop request i while in flight}. \
          Part 'full' (Policy::Full): every order of runnable tasks and environment events (timer gates, batch completions, cancellation: exhaustive) with at most B preemptions, for every 2-request configuration \
-         (quick: with cancellation only for {NoCache, LruCache(2)+feed} × {ok, first batch fails}) and for 3-request configurations at max_batch_size 3 (quick: 4; thorough: every family with ≤ 4 keys in total × 3 caches, plus 2 at max_batch_size 2). \
+         (quick: with cancellation only for {NoCache, LruCache(2)+feed} × {ok, first batch fails}) and for 3-request configurations at max_batch_size 3 (quick: 2; thorough: every family with ≤ 4 keys in total × 3 caches, plus 2 at max_batch_size 2). \
          Part 'event-orders' (Policy::Eager, one arrival gate per request): every order of request arrivals, timer firings, batch completions and the cancellation, for every 2-request and 3-request configuration (quick: 3-request families with ≤ 4 keys in total). \
          Non-trivial = distinct (configuration, outcome) in which a batch served two requests at once or a key was answered from the cache without a loader call.",
     );
@@ -753,6 +756,12 @@ pub fn run(cx: &Cx) {
     cx.extra("environment_event_orders", json!("exhaustive"));
     cx.extra("preemption_points_met", json!(preempt_points.load(Ordering::Relaxed)));
     cx.extra("preemptions_taken", json!(preempt_taken.load(Ordering::Relaxed)));
+    if preempt_points.load(Ordering::Relaxed) == 0 {
+        cx.extra(
+            "preemption_note",
+            json!("measured: no scheduling point offered a preemption (no task is runnable right after its own poll at the natural Pending granularity), so the 'full' part is complete for every preemption bound; a scheduling hook inside the loader would create such points and the bound would start to bind"),
+        );
+    }
     cx.extra(
         "per_part_configurations_schedules",
         json!(per_part.lock().unwrap().iter().map(|(k, v)| (k.to_string(), json!({"configurations": v.0, "schedules": v.1}))).collect::<serde_json::Map<String, serde_json::Value>>()),
